@@ -40,6 +40,9 @@ theorem handle_mark (k : Consts) (m x : List String) (s : State) (kw : CKw) :
   | actionx a => rfl
   | endactio => rfl
   | compord c => rfl
+  | msw o =>
+    simp only [handle, setMark]
+    cases segStep s.p o <;> rfl
 
 theorem runBody_mark (k : Consts) (x : List String) (s : State) (body : List CKw) :
     runBody k (setMark x s) body = (runBody k s body).map (setMark x) := by
@@ -98,6 +101,11 @@ theorem runKws_append (k : Consts) (a b : List CKw) (acc : Option (String × Lis
         cases hh : handle k [] s (.compord c) with
         | error e => rw [hh] at h; cases h
         | ok s' => rw [hh] at h; simp only [] at h ⊢; exact ih _ _ h
+      | msw o =>
+        simp only [List.cons_append, runKws] at h ⊢
+        cases hh : handle k [] s (.msw o) with
+        | error e => rw [hh] at h; cases h
+        | ok s' => rw [hh] at h; simp only [] at h ⊢; exact ih _ _ h
     | some v =>
       obtain ⟨n, ac⟩ := v
       cases kw with
@@ -105,6 +113,7 @@ theorem runKws_append (k : Consts) (a b : List CKw) (acc : Option (String × Lis
       | ops n' rs => simp only [List.cons_append, runKws] at h ⊢; exact ih _ _ h
       | actionx n' => simp only [List.cons_append, runKws] at h ⊢; exact ih _ _ h
       | compord c => simp only [runKws] at h; cases h
+      | msw o => simp only [List.cons_append, runKws] at h ⊢; exact ih _ _ h
 
 /-- A body without ACTIONX/ENDACTIO/COMPORD keywords (what `ActionX::valid_keyword` admits). -/
 def plainKw : CKw → Bool
@@ -126,6 +135,7 @@ theorem runKws_plain (k : Consts) (s : State) (body : List CKw) (hp : body.all p
     | actionx a => simp [plainKw] at hp
     | endactio => simp [plainKw] at hp
     | compord c => simp [plainKw] at hp
+    | msw o => simp [plainKw] at hp
 
 /-- Keywords an action may contain do not change what `block.get("COMPORD")` finds. -/
 theorem compordOf_append_plain (a b : List CKw) (hp : b.all plainKw = true) : compordOf (a ++ b) = compordOf a := by
@@ -140,12 +150,14 @@ theorem compordOf_append_plain (a b : List CKw) (hp : b.all plainKw = true) : co
       | actionx x => simp [plainKw] at hp
       | endactio => simp [plainKw] at hp
       | compord c => simp [plainKw] at hp
+      | msw o => simp [plainKw] at hp
   | cons kw r ih =>
     cases kw with
     | ops n rs => simp only [List.cons_append, compordOf]; exact ih
     | actionx x => simp only [List.cons_append, compordOf]; exact ih
     | endactio => simp only [List.cons_append, compordOf]; exact ih
     | compord c => rfl
+    | msw o => simp only [List.cons_append, compordOf]; exact ih
 
 theorem beginBlock_append_plain (s : State) (a b : List CKw) (hp : b.all plainKw = true) :
     beginBlock s (a ++ b) = beginBlock s a := by
@@ -162,6 +174,7 @@ theorem substBody_plain (ws : List String) (body : List CKw) (hp : body.all plai
     | actionx a => simp [plainKw] at hp
     | endactio => simp [plainKw] at hp
     | compord c => simp [plainKw] at hp
+    | msw o => simp [plainKw] at hp
 
 /-- The handlers never touch the marker channel. -/
 theorem runBody_mark_eq (k : Consts) (b : List CKw) (u v : State) (h : runBody k u b = .ok v) : v.mark = u.mark := by
